@@ -248,6 +248,8 @@ Fixpoint dec_node (fuel : nat) (l : list Z) : dres node :=
       | 14 :: r => dmap NThread (dec_node f r)
       | 15 :: r => Some (NFail, r)
       | 16 :: r => Some (NPanic, r)
+      | 17 :: k :: r => Some (NLeak (pool k), r)
+      | 18 :: k :: r => Some (NFlatten (pool k), r)
       | _ => None
       end
   end.
@@ -281,6 +283,16 @@ Definition spec_prog (inp : list Z) : list Z :=
   | _ => [9]
   end.
 
+(* input: sized n (len cp..)*  -- the text of a JSON array of already rendered elements, JinjaJsonFormatter separators *)
+Definition run_array (inp : list Z) : list Z :=
+  match inp with
+  | sized :: r => match dec_many dec_str r with
+                  | Some (elems, []) => 0 :: enc_str (json_array [44; 32] (seq_len_hint (negb (sized =? 0)) elems) elems)
+                  | _ => [9]
+                  end
+  | _ => [9]
+  end.
+
 Open Scope string_scope.
 Definition runners : list (string * (list Z -> list Z)) :=
-  [ ("c16", run); ("c16-spec", spec); ("c16-tojson", run_tojson); ("c16-prog", run_prog); ("c16-prog-spec", spec_prog) ].
+  [ ("c16", run); ("c16-spec", spec); ("c16-tojson", run_tojson); ("c16-prog", run_prog); ("c16-prog-spec", spec_prog); ("c16-array", run_array) ].
